@@ -375,7 +375,11 @@ pub fn gen_cases(cfg: &RunCfg) -> Vec<Case> {
         let extra = rng.below(9);
         for _ in 0..extra {
             let num = rng.below(100000) as u64;
-            form("arc-n", num, [0, 2][rng.below(2)], &mut text, &mut sx);
+            // further down, a name carries no number of its own: an arc that happens to be called like a
+            // well-known root or second-level arc keeps the number written next to it
+            let pool = ["arc-n", "arc-n", "standard", "iso", "question", "administration", "identified-organization", "member-body", "itu-t", "recommendation"];
+            let name = *rng.pick(&pool);
+            form(name, num, if name == "arc-n" { [0, 2][rng.below(2)] } else { 2 }, &mut text, &mut sx);
         }
         // value assignment only: OBJECT IDENTIFIER DEFAULTs are "currently unsupported" (warning)
         let i = next();
@@ -490,7 +494,7 @@ fn collect_consts(m: &ModuleFacts, generated: &str) -> (BTreeMap<String, syn::Ex
 pub fn run(cfg: &RunCfg) -> Report {
     let mut rep = Report::new(
         "C07",
-        "integers over the C06 boundary set and ±2^127 extremes (direct, through type-reference chains, named-number types), booleans, NULL, named numbers, enumerals, character strings (empty, doubled quotes, multi-byte) on five string types, bstring/hstring of 0..64 bits for BIT STRING, hex/binary OCTET STRING, every hex digit, all 64 subsets of a 6-name named-bit list declared out of order, OIDs of 2..11 arcs in number / name / name(number) form incl. every well-known root and second-level name and a local value reference, CHOICE / SEQUENCE / SEQUENCE OF values, value-reference chains — each as value assignment and as DEFAULT where supported. Observed: const/static initialisers and *_default bodies evaluated symbolically into abstract values",
+        "integers over the C06 boundary set and ±2^127 extremes (direct, through type-reference chains, named-number types), booleans, NULL, named numbers, enumerals, character strings (empty, doubled quotes, multi-byte) on five string types, bstring/hstring of 0..64 bits for BIT STRING, hex/binary OCTET STRING, every hex digit, all 64 subsets of a 6-name named-bit list declared out of order, OIDs of 2..11 arcs in number / name / name(number) form incl. every well-known root and second-level name, well-known names reused with other numbers further down, and a local value reference, CHOICE / SEQUENCE / SEQUENCE OF values, value-reference chains — each as value assignment and as DEFAULT where supported. Observed: const/static initialisers and *_default bodies evaluated symbolically into abstract values",
     );
     let cases: Vec<Case> = if let Some(r) = &cfg.replay {
         let r = r.get("case").unwrap_or(r);
